@@ -17,8 +17,10 @@ import (
 
 // ---- a compact text form of program trees (replay files, the probe driver, debugging)
 //   node  := kind ':' to ':' val '{' (item ';')* end '}'
-//   item  := 'ss:' slot ':' val | 'log' | node
+//   item  := 'ss:' slot ':' val | 'log' | 'col:' address ':' val (a creation that is refused) | node
 //   end   := 'K' (ok) | 'R' (revert) | 'F' [':' flavour] (fail) | 'S:' beneficiary (suicide)
+//            | 'T' (creation: code too big) | 'D' (creation: deposit not affordable)
+//   kind 'create': to = the address the creator makes (nU, nA, nB, nC)
 
 func (n *Node) String() string {
 	var sb strings.Builder
@@ -29,12 +31,24 @@ func (n *Node) String() string {
 			fmt.Fprintf(&sb, "ss:%s:%d;", it.Slot, it.Val)
 		case "log":
 			sb.WriteString("log;")
+		case "collide":
+			fmt.Fprintf(&sb, "col:%s:%d;", it.Slot, it.Val)
 		case "call":
 			sb.WriteString(it.Child.String() + ";")
 		}
 	}
 	switch n.End {
-	case "ok", "":
+	case "ok":
+		if n.Flavor != "" {
+			sb.WriteString("K:" + n.Flavor)
+		} else {
+			sb.WriteString("K")
+		}
+	case "toobig":
+		sb.WriteString("T")
+	case "nodeposit":
+		sb.WriteString("D")
+	case "":
 		sb.WriteString("K")
 	case "revert":
 		sb.WriteString("R")
@@ -103,6 +117,12 @@ func (p *treeParser) node(head string) (*Node, error) {
 				n.Items = append(n.Items, &Item{Op: "sstore", Slot: f[1], Val: v})
 			case f[0] == "log":
 				n.Items = append(n.Items, &Item{Op: "log"})
+			case f[0] == "col" && len(f) == 3:
+				v, err := strconv.Atoi(f[2])
+				if err != nil {
+					return nil, err
+				}
+				n.Items = append(n.Items, &Item{Op: "collide", Slot: f[1], Val: v})
 			default:
 				return nil, fmt.Errorf("bad item %q", tok)
 			}
@@ -112,8 +132,15 @@ func (p *treeParser) node(head string) (*Node, error) {
 			switch f[0] {
 			case "K":
 				n.End = "ok"
+				if len(f) > 1 {
+					n.Flavor = f[1]
+				}
 			case "R":
 				n.End = "revert"
+			case "T":
+				n.End = "toobig"
+			case "D":
+				n.End = "nodeposit"
 			case "F":
 				n.End, n.Flavor = "fail", "invalid"
 				if len(f) > 1 {
@@ -149,8 +176,15 @@ func parseTree(s string) (*Node, error) {
 func driveProbe(args []string) error {
 	fs := flag.NewFlagSet("callframes-probe", flag.ContinueOnError)
 	gas := fs.Uint64("gas", 0, "gas (0 = ample plan)")
+	funded := fs.String("funded", "", "created addresses that hold 1 in the base block (comma separated, e.g. nB)")
 	if err := fs.Parse(args); err != nil {
 		return err
+	}
+	bal := fullBal(initBal)
+	for _, n := range strings.Split(*funded, ",") {
+		if n != "" {
+			bal[n] = 1
+		}
 	}
 	w := &world{tag: "probe"}
 	defer w.close()
@@ -160,11 +194,7 @@ func driveProbe(args []string) error {
 		if err != nil {
 			return err
 		}
-		g := root.plan()
-		if *gas != 0 {
-			g = *gas
-		}
-		r, err := w.runTree(root, g, nil)
+		r, err := w.runTree(root, *gas, nil, bal)
 		if err != nil {
 			return err
 		}
@@ -179,7 +209,13 @@ type treeGen struct {
 	rng      *rand.Rand
 	ids      int
 	maxDepth int
+	made     map[string]bool // created addresses a creation has been generated for (and not failed by itself)
+	funded   map[string]bool // created addresses that hold funds in the base block: creations towards them collide
+	ncreate  int
+	nburn    int // creations that burn all their gas (the plan multiplies by 64 for each in a row)
 }
+
+func isCreator(ctx string) bool { return len(ctx) == 1 }
 
 func (g *treeGen) node(depth int, kind, to string, val int, ro bool, ctx string) *Node {
 	g.ids++
@@ -189,22 +225,65 @@ func (g *treeGen) node(depth int, kind, to string, val int, ro bool, ctx string)
 		myctx = to
 	}
 	ro = ro || kind == "staticcall"
+	if kind == "create" {
+		myctx = to
+	}
 	nitems := g.rng.Intn(5)
 	for i := 0; i < nitems && g.ids < 40; i++ {
-		switch x := g.rng.Intn(10); {
+		switch x := g.rng.Intn(12); {
 		case x < 3 && !ro:
 			n.Items = append(n.Items, &Item{Op: "sstore", Slot: slotNames[g.rng.Intn(2)], Val: g.rng.Intn(3)})
 		case x < 4 && !ro:
 			n.Items = append(n.Items, &Item{Op: "log"})
+		case x < 6 && !ro && isCreator(myctx) && g.funded["n"+myctx]:
+			n.Items = append(n.Items, &Item{Op: "collide", Slot: "n" + myctx, Val: g.rng.Intn(2)})
+		case x < 6 && !ro && isCreator(myctx) && !g.made["n"+myctx] && g.ncreate < 4 && depth < g.maxDepth:
+			g.ncreate++
+			g.made["n"+myctx] = true
+			c := g.node(depth+1, "create", "n"+myctx, g.rng.Intn(2), ro, myctx)
+			if c.End != "ok" && c.End != "suicide" {
+				g.made["n"+myctx] = false // undone: the creator may try again
+			}
+			n.Items = append(n.Items, &Item{Op: "call", Child: c})
 		case depth < g.maxDepth:
 			k := []string{"call", "call", "callcode", "delegatecall", "staticcall"}[g.rng.Intn(5)]
 			v := 0
 			if (k == "call" && !ro || k == "callcode") && g.rng.Intn(3) == 0 {
 				v = 1
 			}
-			c := g.node(depth+1, k, contractNames[g.rng.Intn(3)], v, ro, myctx)
+			t := contractNames[g.rng.Intn(3)]
+			if g.rng.Intn(3) == 0 { // a contract made earlier in this transaction
+				for _, c := range createdNames {
+					if g.made[c] && c != myctx {
+						t = c
+					}
+				}
+			}
+			c := g.node(depth+1, k, t, v, ro, myctx)
 			n.Items = append(n.Items, &Item{Op: "call", Child: c})
 		}
+	}
+	if kind == "create" { // a creation frame: the two failures of the code deposit on top of the ways any frame ends
+		switch x := g.rng.Intn(12); {
+		case x < 4:
+			n.End = "ok"
+		case x < 6:
+			n.End = "revert"
+		case x < 7:
+			n.End, n.Benef = "suicide", allNames[g.rng.Intn(len(allNames))]
+		case g.nburn >= 2:
+			n.End = "revert"
+		case x < 9:
+			n.End, n.Flavor = "fail", flavours[g.rng.Intn(len(flavours))]
+			g.nburn++
+		case x < 10:
+			n.End = "toobig"
+			g.nburn++
+		default:
+			n.End = "nodeposit"
+			g.nburn++
+		}
+		return n
 	}
 	switch x := g.rng.Intn(10); {
 	case x < 4:
@@ -248,14 +327,25 @@ func driveTrees(args []string) error {
 		*num = fs.NArg()
 	}
 	for i := 0; i < *num; i++ {
-		g := &treeGen{rng: rng, maxDepth: *depth}
+		g := &treeGen{rng: rng, maxDepth: *depth, made: map[string]bool{}, funded: map[string]bool{}}
+		bal := fullBal(initBal)
+		if fs.NArg() == 0 && rng.Intn(4) == 0 { // an address some contract would create holds funds already
+			c := createdNames[1+rng.Intn(3)]
+			g.funded[c], bal[c] = true, 1
+		}
 		var root *Node
 		if fs.NArg() > 0 { // explicit trees (text form) instead of generated ones
 			if root, err = parseTree(fs.Arg(i)); err != nil {
 				return err
 			}
 		} else {
-			root = g.node(0, "call", contractNames[rng.Intn(3)], rng.Intn(2), false, "U")
+			if rng.Intn(4) == 0 { // a contract creation transaction
+				g.ncreate, g.made["nU"] = 1, true
+				root = g.node(0, "create", "nU", rng.Intn(2), false, "U")
+			} else {
+				root = g.node(0, "call", contractNames[rng.Intn(3)], rng.Intn(2), false, "U")
+			}
+			maxFlavour(root, func(*Node) bool { return rng.Intn(5) == 0 })
 		}
 		base := map[string]map[string]int{}
 		if fs.NArg() == 0 && rng.Intn(2) == 0 { // half of the programs start from committed non-zero storage
@@ -263,10 +353,10 @@ func driveTrees(args []string) error {
 				base[c] = map[string]int{"s1": rng.Intn(3), "s2": rng.Intn(2)}
 			}
 		}
-		if err := enc.Encode(map[string]interface{}{"ev": "reset", "beh": i, "step": 0, "bal": initBal, "base": fullBase(base)}); err != nil {
+		if err := enc.Encode(map[string]interface{}{"ev": "reset", "beh": i, "step": 0, "bal": bal, "base": fullBase(base)}); err != nil {
 			return err
 		}
-		fl, err := runProgram(w, root, base, *seed, i)
+		fl, err := runProgram(w, root, base, bal, *seed, i)
 		if err != nil {
 			return err
 		}
@@ -316,6 +406,31 @@ func soup(rng *rand.Rand, n int) []byte {
 	return a.bytes()
 }
 
+// withTail wraps a byte string into code that certainly executes a jump (so that the platform has to analyse the jump
+// destinations of the whole string) and ends like byte strings in the wild do: with a PUSH<p> whose data is cut off by
+// the end of the code after m bytes, at a seeded length modulo 8.
+func withTail(rng *rand.Rand, body []byte) []byte {
+	a := []byte{opPUSH1, 4, opJUMP, opINVALID, opJUMPDEST}
+	a = append(a, body...)
+	p := 1 + rng.Intn(32)
+	if rng.Intn(3) == 0 {
+		p = 32
+	}
+	m := 0
+	if rng.Intn(2) == 0 {
+		m = rng.Intn(p + 1)
+	}
+	r := rng.Intn(8)
+	for (len(a)+1+m)%8 != r {
+		a = append(a, opJUMPDEST)
+	}
+	a = append(a, byte(opPUSH1+p-1))
+	for i := 0; i < m; i++ {
+		a = append(a, opJUMPDEST)
+	}
+	return a
+}
+
 func randBytes(rng *rand.Rand, n int) []byte {
 	b := make([]byte, n)
 	rng.Read(b)
@@ -356,9 +471,10 @@ func driveRand(args []string) error {
 	defer bw.Flush()
 	enc := json.NewEncoder(bw)
 	rng := rand.New(rand.NewSource(*seed))
+	rngT := rand.New(rand.NewSource(*seed*7919 + 13)) // (a stream of its own: the programs of the other kinds stay what they were)
 	w := &world{tag: fmt.Sprintf("rand%d", *seed)}
 	defer w.close()
-	if err := enc.Encode(map[string]interface{}{"ev": "reset", "beh": 0, "step": 0, "bal": initBal, "base": fullBase(nil)}); err != nil {
+	if err := enc.Encode(map[string]interface{}{"ev": "reset", "beh": 0, "step": 0, "bal": fullBal(initBal), "base": fullBase(nil)}); err != nil {
 		return err
 	}
 	deepKinds := []string{"call", "callcode", "delegatecall", "staticcall"}
@@ -437,6 +553,16 @@ func driveRand(args []string) error {
 			}
 			if rng.Intn(2) == 0 {
 				gas = uint64(rng.Intn(4000000))
+			}
+		}
+		if (kind == "bytes" || kind == "soup" || kind == "create") && rngT.Intn(3) == 0 {
+			kind += "+tail"
+			if to == nil {
+				input = withTail(rngT, input)
+			} else {
+				for c, b := range codeAt {
+					codeAt[c] = withTail(rngT, b)
+				}
 			}
 		}
 		h, err := w.base(codeAt, nil)
